@@ -16,6 +16,7 @@ g=collections.defaultdict(list)
 for f in glob.glob('/verif/replays/%s/*.json'%prop):
     w=json.load(open(f)); tags=w.get('tags','')
     ks=sorted(t[6:] for t in tags.split(',') if t.startswith('known:'))
+    if len(ks)>1 and 'nil-interface-assert' in ks: ks.remove('nil-interface-assert')  # repaired: never the cause on its own
     if w['cell'].split('/')[1]=='host': k='host:'+w['cell'].split('/')[2]
     elif ks: k=ks[0]
     else:
